@@ -1210,10 +1210,19 @@ class RpcServer:
 
         cancelled = False
 
-        input_reader = ValidatedReader(ipc.open_stream(transport.reader), self._ipc_validation)
-
         prev_input: AnnotatedBatch | None = None
         try:
+            try:
+                input_reader = ValidatedReader(ipc.open_stream(transport.reader), self._ipc_validation)
+            except Exception as exc:
+                # The client went away (or sent garbage) before opening its input
+                # stream.  The call was dispatched -- the method ran -- so it is
+                # still recorded, as the failure it is.
+                _hook_exc = exc
+                status = "error"
+                error_type = type(exc).__name__
+                error_message = str(exc)
+                raise
             with new_ipc_stream(transport.writer, output_schema) as output_writer:
                 sink.flush_contents(output_writer, output_schema)
                 cumulative_bytes = 0
